@@ -54,6 +54,15 @@ func httpStep(client *http.Client, base string, op map[string]interface{}) map[s
 		uri = "/api/loc/admin/size"
 	case "clear":
 		uri = "/api/loc/admin/clear"
+	case "garbage":
+		// a request the service cannot even read: it is answered (400) and must leave nothing behind
+		resp, err := client.Post(base+"/api/loc/facts/add", "application/json", bytes.NewReader([]byte(`{"location": "`+name+`", "fact": {not json`)))
+		if err != nil {
+			return map[string]interface{}{"err": "http", "msg": err.Error()}
+		}
+		defer resp.Body.Close()
+		ioutil.ReadAll(resp.Body)
+		return map[string]interface{}{"status": resp.StatusCode, "body": "unreadable request refused"}
 	default:
 		return errS("nohttp:" + kind)
 	}
@@ -99,8 +108,10 @@ func init() {
 		conc, _ := c["concurrent"].(bool)
 		var server *httptest.Server
 		var hclient *http.Client
+		var hs *service.HTTPService
 		if useHTTP {
-			hs, err := service.NewHTTPService(newCtx(), &service.Service{System: e.s})
+			var err error
+			hs, err = service.NewHTTPService(newCtx(), &service.Service{System: e.s})
 			if err != nil {
 				return errS("setup:" + err.Error())
 			}
@@ -161,7 +172,13 @@ func init() {
 			name, _ := cl["loc"].(string)
 			res[i] = map[string]interface{}{"loc": name, "outs": outs[i], "store": e.storeDump(name)}
 		}
-		return map[string]interface{}{"clients": res, "storages": creations}
+		out := map[string]interface{}{"clients": res, "storages": creations}
+		if hs != nil {
+			// every request has been answered: nothing is pending any more
+			time.Sleep(20 * time.Millisecond)
+			out["pending"] = hs.Pending()
+		}
+		return out
 	})
 
 	// c11.storage_race: forced schedule for ensureStorage (system.go:700-714). Client 0 is stopped at the log call
